@@ -226,6 +226,101 @@ func (g *c16Gate) fn(phase, method string, conn *redis.Conn) {
 }
 
 // runControlled executes rounds "A parked at its g-th primitive while B runs" and returns the history.
+// c16Nested: client A / B sends its operations in the nested form (an array whose only element is the command array),
+// which the server unwraps and executes like the plain form.
+var c16Nested [2]bool
+
+func c16Encode(client int, cmd []string) []byte {
+	if client < 2 && c16Nested[client] {
+		return resp.A(resp.Cmd(cmd...)).Bytes()
+	}
+	return resp.Cmd(cmd...).Bytes()
+}
+
+// runLateConnect: client A is the only connection of the server and is parked inside its command when client B
+// connects and issues its command.
+func runLateConnect(init [][]string, opA, opB []string, gateIdx int) (c16History, error) {
+	srv := redis.NewServer()
+	store := doubles.NewRefStore()
+	store.SplitRMW = true
+	srv.SetCommandHandler(store)
+	g := &c16Gate{holdCl: -1, count: map[int]int{}}
+	store.Gate = g.fn
+	h := c16History{Store: "refstore", Mode: "late-connect", Init: init}
+	m, err := connsim.NewMulti(srv, 1, serveTimeout())
+	if err != nil {
+		return h, err
+	}
+	defer m.CloseAll()
+	for _, c := range init {
+		if _, _, err := m.Step(0, resp.Cmd(c...).Bytes()); err != nil {
+			return h, err
+		}
+	}
+	g.mu.Lock()
+	g.count = map[int]int{}
+	g.holdCl, g.holdAt = 0, gateIdx
+	g.parked, g.release = make(chan struct{}), make(chan struct{})
+	parked, release := g.parked, g.release
+	g.mu.Unlock()
+	var clock int64
+	type done struct {
+		op  c16Op
+		err error
+	}
+	run := func(client int, cmd []string, ch chan done) {
+		call := atomic.AddInt64(&clock, 1)
+		frames, _, err := m.Step(client, resp.Cmd(cmd...).Bytes())
+		ret := atomic.AddInt64(&clock, 1)
+		out := "<no reply>"
+		if len(frames) == 1 {
+			out = renderReply(frames[0])
+		}
+		ch <- done{c16Op{Client: client, Cmd: cmd, Call: call, Ret: ret, Out: out}, err}
+	}
+	chA, chB := make(chan done, 1), make(chan done, 1)
+	go run(0, opA, chA)
+	var dA, dB done
+	aDone := false
+	select {
+	case <-parked:
+	case dA = <-chA:
+		aDone = true
+	case <-time.After(serveTimeout()):
+		return h, connsim.ErrTimeout
+	}
+	if err := m.Open(); err != nil { // the second client arrives only now
+		return h, err
+	}
+	go run(1, opB, chB)
+	bDone := false
+	if !aDone {
+		select {
+		case dB = <-chB:
+			bDone = true
+		case <-time.After(3 * time.Millisecond):
+		}
+		close(release)
+		select {
+		case dA = <-chA:
+		case <-time.After(serveTimeout()):
+			return h, connsim.ErrTimeout
+		}
+	}
+	if !bDone {
+		select {
+		case dB = <-chB:
+		case <-time.After(serveTimeout()):
+			return h, connsim.ErrTimeout
+		}
+	}
+	if dA.err != nil || dB.err != nil {
+		return h, fmt.Errorf("step error: %v %v", dA.err, dB.err)
+	}
+	h.Ops = append(h.Ops, dA.op, dB.op)
+	return h, nil
+}
+
 func runControlled(init [][]string, rounds [][3]interface{}, warms ...[2]bool) (c16History, error) {
 	var warm [2]bool
 	if len(warms) > 0 {
@@ -280,7 +375,7 @@ func runControlled(init [][]string, rounds [][3]interface{}, warms ...[2]bool) (
 		}
 		run := func(client int, cmd []string, ch chan done) {
 			call := tick()
-			frames, _, err := m.Step(client, resp.Cmd(cmd...).Bytes())
+			frames, _, err := m.Step(client, c16Encode(client, cmd))
 			ret := tick()
 			out := "<no reply>"
 			if len(frames) == 1 {
@@ -452,7 +547,7 @@ func TestC16(t *testing.T) {
 	h := newHarness(t, "C16", "concurrent histories of GET/SET/SETNX/GETSET/INCR/DECRBY/APPEND/MSETNX/DEL (one or several keys) over 1..3 keys. CONTROLLED mode (reference store with a turnstile before every primitive handler call): client A is parked at its g-th primitive call "+
 		"(g in 0..2, i.e. before Get, between Get and Set, ...) while client B's command is started - exhaustively for all pairs of operation kinds x g x {key absent, key=5}, and in random multi-round sequences; "+
 		"UNCONTROLLED mode: 2..8 clients x 1..4 operations on real goroutines against the reference store and against the bundled example store. Oracle: the recorded client-side history (logical-clock invoke/return stamps) must be linearizable "+
-		"against the sequential Redis model (porcupine, complete search). TURNS mode: 2..3 clients taking turns without overlap against both stores (the history's only admissible order is the real-time one; state cached per connection shows here). SLOW-READER mode: a client's command has been executed but its reply is held back while two other clients work, then delivered. WIDE commands (MSET/MSETNX/MGET/DEL over 2..40 keys) against a handler that takes a moment per call and fails at one: no handler call may be running or started once the command is answered. In controlled and hammer runs a client may first receive an error reply (INCR of a non-integer). "+
+		"against the sequential Redis model (porcupine, complete search). TURNS mode: 2..3 clients taking turns without overlap against both stores (the history's only admissible order is the real-time one; state cached per connection shows here). SLOW-READER mode: a client's command has been executed but its reply is held back while two other clients work, then delivered. NESTED FORM: requests sent as an array holding the command array. LATE CONNECT: the second client connects while the first, alone so far, is inside its command. WIDE commands (MSET/MSETNX/MGET/DEL over 2..40 keys) against a handler that takes a moment per call and fails at one: no handler call may be running or started once the command is answered. In controlled and hammer runs a client may first receive an error reply (INCR of a non-integer). "+
 		"Non-trivial: two operations of different clients on the same key overlap in time and at least one writes (turns mode: operations of at least two clients). Distinct = distinct history (operations, order and results).")
 	defer h.Finish()
 	h.Probes()
@@ -493,7 +588,38 @@ func TestC16(t *testing.T) {
 				}
 			}
 		}
-		h.Col.Exhaustive("controlled: all ordered pairs of 10 operation kinds x park point 0..3 x {absent, a=5}, and at park point 1 also with A or B having received an error reply before", complete)
+		// the same pairs at park point 1 with A or B sending the nested form, and with B connecting only after A is parked
+		if complete {
+		extra:
+			for _, init := range inits {
+				for _, a := range kinds {
+					for _, b := range kinds {
+						for _, nested := range [][2]bool{{true, false}, {false, true}} {
+							c16Nested = nested
+							hist, err := runControlled(init, [][3]interface{}{{a, b, 1}})
+							c16Nested = [2]bool{}
+							if err != nil {
+								t.Fatalf("controlled run: %v", err)
+							}
+							hist.Mode = fmt.Sprintf("controlled, nested form %v", nested)
+							if !record(hist, "controlled-pair-nested") {
+								complete = false
+								break extra
+							}
+						}
+						hist, err := runLateConnect(init, a, b, 1)
+						if err != nil {
+							t.Fatalf("late-connect run: %v", err)
+						}
+						if !record(hist, "late-connect-pair") {
+							complete = false
+							break extra
+						}
+					}
+				}
+			}
+		}
+		h.Col.Exhaustive("controlled: all ordered pairs of 10 operation kinds x park point 0..3 x {absent, a=5}, and at park point 1 also with A or B having received an error reply before, with A or B sending the nested request form, and with B connecting only after A (the only connection so far) is parked", complete)
 	}
 
 	// (a') random multi-round controlled sequences
